@@ -46,7 +46,10 @@ class _ScalarAnn:
             return ast.unparse(e) in self.BASE
         if isinstance(e, ast.BinOp) and isinstance(e.op, ast.BitOr):
             return self._ok(e.left) and self._ok(e.right)
-        if isinstance(e, ast.Subscript) and ast.unparse(e.value) in ("Optional", "Tuple", "tuple", "FrozenSet", "frozenset", "typing.Optional", "typing.Tuple", "Union"):
+        if isinstance(e, ast.Subscript) and ast.unparse(e.value) in ("Optional", "Tuple", "tuple", "FrozenSet", "frozenset", "typing.Optional", "typing.Tuple", "Union",
+                                                                      # mappings / sequences whose keys and values are all of the kinds above hold nothing else either
+                                                                      "Dict", "dict", "Mapping", "MutableMapping", "typing.Dict", "typing.Mapping", "typing.MutableMapping", "IdentityDict",
+                                                                      "List", "list", "Sequence", "Set", "set"):
             sl = e.slice
             elts = list(sl.elts) if isinstance(sl, ast.Tuple) else [sl]
             return bool(elts) and all(self._ok(x) for x in elts)
